@@ -115,9 +115,12 @@ func VH_C20_Observer() {
 		}
 		verifrt.Assert(obr.UpdateTableState(t0) == nil, "earlier snapshot accepted")
 	}
-	system := verifrt.Bool("system")
-	mode = system
-	obr.EnabledSystemMode(system)
+	system := system0
+	if verifrt.Bool("switchBefore") { // a switch is an event of its own: it may or may not happen
+		system = verifrt.Bool("system")
+		mode = system
+		obr.EnabledSystemMode(system)
+	}
 	calls = 0
 	err := obr.UpdateTableState(t)
 
@@ -143,9 +146,11 @@ func VH_C20_Observer() {
 			}
 		}
 	}
-	system2 := verifrt.Bool("system2")
-	mode = system2
-	obr.EnabledSystemMode(system2)
+	if verifrt.Bool("switchAfter") {
+		system2 := verifrt.Bool("system2")
+		mode = system2
+		obr.EnabledSystemMode(system2)
+	}
 	verifrt.Assert(!leak, "whatever the listener is handed while the observer is not in system mode is filtered (mode switches included)")
 	verifrt.Reach("end")
 }
